@@ -267,6 +267,26 @@ def mass_fraction_rule(w, aL, al, k, MWs):
     return w.And()
 
 
+def remembered_state(w, lle, L, l, sIDs, z, T):
+    """
+    Exit state of LLE.__call__ (entry state of the reuse branch, C15/lle_reuse_step): when both liquids are non-empty the
+    remembered K_i is x_L,i / x_l,i (for mole fractions outside the clamp), phi the fraction of the feed labelled 'L', and
+    T, z, chemicals are those of this call.  L, l: amounts per unit of feed under their final labels.
+    """
+    cs = [w.eq(lle._T, T), w.And([c.ID for c in lle._lle_chemicals] == list(sIDs))]
+    cs += [w.eq(a, b) for a, b in zip(lle._z_mol, z)]
+    FL = w_total(L)
+    Fl = w_total(l)
+    if decide(w, w.And(w.gt(FL, 0.), w.gt(Fl, 0.))):
+        cs.append(w.eq(lle._phi * (FL + Fl), FL))
+        for i in range(len(sIDs)):
+            x_l = l[i] / Fl
+            x_L = L[i] / FL
+            if decide(w, w.ge(x_l, 1e-16)):
+                cs.append(w.eq(lle._K[i] * x_l, x_L))
+    return w.And(*cs)
+
+
 def top_rule_per_unit_feed(w, s, now, top, sIDs, z, molL, F):
     """
     The same sentence written on the amounts per unit of feed (mass fractions do not change when both phases are
@@ -349,6 +369,11 @@ def lle_call(w, cfg):
                 w.ensure('no top chemical: solver labelling kept', straight)
             for i, ID in enumerate(sIDs):
                 w.ensure(f'solver saw the normalised feed z[{ID}]', w.eq(z[i] * F, before['l', ID] + before['L', ID]))
+            a = list(molL)
+            b = [z[i] - molL[i] for i in range(len(sIDs))]
+            lle = s.lle
+            w.ensure('remembered state describes the returned split (K = x_L/x_l, phi = L fraction, T, z, chemicals)',
+                     w.Or(w.And(straight, remembered_state(w, lle, a, b, sIDs, z, T)), w.And(mirror, remembered_state(w, lle, b, a, sIDs, z, T))))
         if top is not None and top in IDs and stub.calls:
             if top in sIDs and cfg.get('per_unit', True):
                 w.ensure(f'top chemical {top}: mass fraction in L >= in l', top_rule_per_unit_feed(w, s, now, top, list(sIDs), z, molL, F))
@@ -519,21 +544,23 @@ def lle_cache_decision(w, cfg):
 # --------------------------------------------------------------------------- C15/lle_reuse: reuse allowed == reuse forbidden
 
 def lle_reuse_configs(tier):
-    fam = [('WO', None), ('WO', 'Octanol'), ('WO', 'Water')]
+    fam = [('WO', None)]
     return [{'name': f'{pkg}/top={top}', 'pkg': pkg, 'top': top} for pkg, top in fam]
 
 
-@group('C15/lle_reuse', configs=lle_reuse_configs,
-       functions=LLE_FUNCS + ['thermosteam.equilibrium.binary_phase_fraction:phase_fraction',
-                              'thermosteam.equilibrium.binary_phase_fraction:compute_phase_fraction_2N'],
-       assumptions=[A_OPT, 'requires: the solver returned two liquids of different composition (every partition coefficient '
-                           'differs from 1 by more than 1e-6), every mole fraction >= 1e-16 (no clamping of the stored K); '
-                           'total feed 1 mol'])
+REUSE_FUNCS = LLE_FUNCS + ['thermosteam.equilibrium.binary_phase_fraction:phase_fraction',
+                           'thermosteam.equilibrium.binary_phase_fraction:compute_phase_fraction_2N']
+REUSE_REQ = ('requires: two liquids of different composition (every partition coefficient differs from 1 by more than 1e-6), '
+             'every mole fraction >= 1e-16 (no clamping of the stored K)')
+
+
+@group('C15/lle_reuse', configs=lle_reuse_configs, functions=REUSE_FUNCS, assumptions=[A_OPT, REUSE_REQ + '; total feed 1 mol'])
 def lle_reuse(w, cfg):
     """
-    Same stream, same temperature, same composition, two calls: the first solves (reuse impossible), the second is allowed
-    to reuse the remembered partition coefficients.  It must give the same split (same flows under the same labels) as the
-    call that could not reuse anything.  The Rachford-Rice step of the reuse branch is the REAL two-component closed form.
+    End to end, no top chemical: same stream, same temperature, same composition, two calls: the first solves (reuse
+    impossible), the second is allowed to reuse the remembered partition coefficients.  It must give the same split (same
+    flows under the same labels) as the call that could not reuse anything.  The Rachford-Rice step of the reuse branch is
+    the REAL two-component closed form.
 
     Leaves: the solver's answer is parametrised by the fraction `beta` of the feed it puts in its first phase and the mole
     fraction of the first chemical in each of its two phases (xa, xb); the feed is z = beta*xa + (1-beta)*xb, 1 - z (every
@@ -545,14 +572,12 @@ def lle_reuse(w, cfg):
         stub = install_solver(env, 'preset')
         pkg = cfg['pkg']
         top = cfg['top']
-        IDs = PKGS[pkg]
         s, l1 = lle_stream(w, 'f', pkg, 'lL', {})
         beta = w.real('beta', lo=0., hi=1., lo_strict=True, hi_strict=True)
         xa = w.real('xa', lo=1e-16, hi=1. - 1e-16)
         xb = w.real('xb', lo=1e-16, hi=1. - 1e-16)
-        # two different compositions: both partition coefficients differ from 1 by more than 1e-6
-        for p, q in ((xa, xb), (1. - xa, 1. - xb)):
-            w.assume(w.Or(w.ge(p, (1 + 1e-6) * q), w.le(p, (1 - 1e-6) * q)))
+        for p_, q_ in ((xa, xb), (1. - xa, 1. - xb)):
+            w.assume(w.Or(w.ge(p_, (1 + 1e-6) * q_), w.le(p_, (1 - 1e-6) * q_)))
         a = [beta * xa, beta * (1. - xa)]
         z0 = a[0] + (1. - beta) * xb
         row = dict(W.rows_of(s))['l']
@@ -571,5 +596,73 @@ def lle_reuse(w, cfg):
         w.ensure('T is the requested temperature', w.eq(s.T, T0))
         w.canary('canary: the reuse branch is never taken', w.And(stub.calls != calls))
         w.note(solver_calls=stub.calls, reused=stub.calls == calls, snap1=snap1, snap2=snap2)
+    finally:
+        env.restore()
+
+
+# --------------------------------------------------------------------------- C15/lle_reuse_step: the reuse branch from a consistent remembered state
+
+def lle_reuse_step_configs(tier):
+    fam = [('WO', None, 'unit'), ('WO', 'Octanol', 'unit'), ('WO', 'Water', 'unit')]
+    if tier == 'thorough':
+        fam += [('WO', None, 'any'), ('WO', 'Octanol', 'any'), ('WO', 'Water', 'any')]
+    return [{'name': f'{pkg}/top={top}/feed={feed}', 'pkg': pkg, 'top': top, 'feed': feed} for pkg, top, feed in fam]
+
+
+@group('C15/lle_reuse_step', configs=lle_reuse_step_configs, functions=REUSE_FUNCS,
+       assumptions=[REUSE_REQ, 'entry state: the remembered (K, phi, T, z, chemicals) describe a two-liquid split of the present feed at the '
+                               "present temperature (this is the exit state of LLE.__call__ proved as clause 'remembered state' in C15/lle_call) "
+                               'whose labels already obey the top-chemical rule'])
+def lle_reuse_step(w, cfg):
+    """
+    Modular form of 'reuse allowed == reuse forbidden' (also with a top chemical): ENTRY STATE = what a previous call at this
+    temperature and composition left behind (K_i = x_L,i / x_l,i, phi = fraction of the feed in 'L'); under A-opt a call that
+    may not reuse it returns exactly that split.  The reuse branch (real Rachford-Rice closed form for two chemicals, real
+    top-chemical swap, real bookkeeping) must hand out the same flows under the same labels.
+    """
+    W.reset_caches()
+    env = Env(w, cfg)
+    try:
+        stub = install_solver(env, 'havoc')
+        pkg = cfg['pkg']
+        top = cfg['top']
+        IDs = PKGS[pkg]
+        s, _ = lle_stream(w, 'f', pkg, 'lL', {})
+        MWs = [MW_of(s)[ID] for ID in IDs]
+        phi = w.real('phi', lo=0., hi=1., lo_strict=True, hi_strict=True)
+        xl0 = w.real('xl', lo=1e-16, hi=1. - 1e-16)
+        xL0 = w.real('xL', lo=1e-16, hi=1. - 1e-16)
+        xl = [xl0, 1. - xl0]
+        xL = [xL0, 1. - xL0]
+        for p_, q_ in zip(xL, xl):
+            w.assume(w.Or(w.ge(p_, (1 + 1e-6) * q_), w.le(p_, (1 - 1e-6) * q_)))
+        if top is not None:
+            k = IDs.index(top)
+            # the remembered labels obey the rule for this top chemical, strictly (a tie leaves the labelling open)
+            ML = w_total([x * m for x, m in zip(xL, MWs)]); Ml = w_total([x * m for x, m in zip(xl, MWs)])
+            w.assume(w.gt(xL[k] * MWs[k] * Ml, xl[k] * MWs[k] * ML))
+        F = 1. if cfg['feed'] == 'unit' else w.real('F', lo=1e-3, hi=1e3)
+        z = [phi * p_ + (1. - phi) * q_ for p_, q_ in zip(xL, xl)]
+        T0 = w.real('T0', lo=285., hi=355.)
+        lle = s.lle
+        lle._K = env.arr([p_ / q_ for p_, q_ in zip(xL, xl)])
+        lle._phi = phi
+        lle._T = T0
+        lle._z_mol = env.arr(z)
+        lle._lle_chemicals = [s.chemicals[ID] for ID in IDs]
+        # the present feed: the remembered split itself, or everything in one phase
+        rows = dict(W.rows_of(s))
+        for i in range(2):
+            rows['L'].dct[i] = F * (phi * xL[i])
+            rows['l'].dct[i] = F * ((1. - phi) * xl[i])
+        before = flows_now(s)
+        lle(T0, top_chemical=top, use_cache=True)
+        now = flows_now(s)
+        for i, ID in enumerate(IDs):
+            w.ensure(f"reuse allowed: flow['L', {ID}] is the remembered split's (= what forbidding reuse returns)", w.eq(now['L', ID], F * (phi * xL[i])))
+            w.ensure(f"reuse allowed: flow['l', {ID}] is the remembered split's (= what forbidding reuse returns)", w.eq(now['l', ID], F * ((1. - phi) * xl[i])))
+        w.ensure('T is the requested temperature', w.eq(s.T, T0))
+        w.canary('canary: the reuse branch is never taken', w.And(stub.calls != 0))
+        w.note(solver_calls=stub.calls, now=now)
     finally:
         env.restore()
